@@ -10,6 +10,7 @@
 (*                      by the harness to position pos of E (0 = no        *)
 (*                      alignment found); TLC re-checks E[pos].g = g       *)
 (*  T.sess[s].q     the user explicitly asked to quit in this session      *)
+(*  T.sess[s].noise the session wrote something to stdout that is not a guess *)
 (*  T.sess[s].qn    guesses written by this session when the quit flag was *)
 (*                  set (-1 = never)                                       *)
 (*  T.sess[s].tie   pre-terminal whose probability equals the position     *)
@@ -57,6 +58,7 @@ Clauses == <<
            LET p == S.x[S.qn + 1][1]
                bound == IF p \in 1..NE THEN (IF T.E[p].m THEN p ELSE CHOOSE k \in PosOf(T.E[p].p) : \A j \in PosOf(T.E[p].p) : j <= k) ELSE 0
            IN \A i \in (S.qn + 1)..Len(S.x) : S.x[i][1] <= bound >>,
+  << "C12_nothing_but_guesses_on_stdout",  ~S.noise >>,
   << "C15_C08_saved_state_is_the_remainder",  si = NS => (LastPos(S.x) = NE \/ Replay(S.x) # <<>>) >> >>
 
 Failing == SelectSeq([k \in DOMAIN Clauses |-> IF Clauses[k][2] = TRUE THEN "" ELSE Clauses[k][1]], LAMBDA z : z # "")
